@@ -45,35 +45,28 @@ Record scr := mkScr { disp : mem ; nond : mem ; md : mode ; crow : Z ; ccol : Z 
                       pcol : Z ; pita : bool ; pund : bool ;       (* pen: colour, italics, underline *)
                       last : option Z ;                             (* last control pair, for section 6.4 *)
                       chan : Z ;                                    (* data channel being addressed: 1 or 2 *)
-                      (* bookkeeping used only by the recorded deviations below *)
-                      lastk : option Z ;                            (* last channel-1 control pair, kept across nulls *)
+                      (* bookkeeping, not used by the word semantics of the standard: it delimits the stream classes of
+                         the simulation theorems (Properties/C08.v: no two mid-row codes in a row) *)
                       pmid : bool }.                                (* the last channel-1 word was a mid-row code *)
-Definition scr0 : scr := mkScr mem0 mem0 PopOn 15 0 white false false None 1 None false.
+Definition scr0 : scr := mkScr mem0 mem0 PopOn 15 0 white false false None 1 false.
 
-Definition set_disp s x := mkScr x (nond s) (md s) (crow s) (ccol s) (pcol s) (pita s) (pund s) (last s) (chan s) (lastk s) (pmid s).
-Definition set_nond s x := mkScr (disp s) x (md s) (crow s) (ccol s) (pcol s) (pita s) (pund s) (last s) (chan s) (lastk s) (pmid s).
-Definition set_md s x := mkScr (disp s) (nond s) x (crow s) (ccol s) (pcol s) (pita s) (pund s) (last s) (chan s) (lastk s) (pmid s).
-Definition set_pos s r c := mkScr (disp s) (nond s) (md s) r c (pcol s) (pita s) (pund s) (last s) (chan s) (lastk s) (pmid s).
-Definition set_pen s co i u := mkScr (disp s) (nond s) (md s) (crow s) (ccol s) co i u (last s) (chan s) (lastk s) (pmid s).
-Definition set_last s x := mkScr (disp s) (nond s) (md s) (crow s) (ccol s) (pcol s) (pita s) (pund s) x (chan s) (lastk s) (pmid s).
-Definition set_chan s x := mkScr (disp s) (nond s) (md s) (crow s) (ccol s) (pcol s) (pita s) (pund s) (last s) x (lastk s) (pmid s).
-Definition set_lastk s x := mkScr (disp s) (nond s) (md s) (crow s) (ccol s) (pcol s) (pita s) (pund s) (last s) (chan s) x (pmid s).
-Definition set_pmid s x := mkScr (disp s) (nond s) (md s) (crow s) (ccol s) (pcol s) (pita s) (pund s) (last s) (chan s) (lastk s) x.
+Definition set_disp s x := mkScr x (nond s) (md s) (crow s) (ccol s) (pcol s) (pita s) (pund s) (last s) (chan s) (pmid s).
+Definition set_nond s x := mkScr (disp s) x (md s) (crow s) (ccol s) (pcol s) (pita s) (pund s) (last s) (chan s) (pmid s).
+Definition set_md s x := mkScr (disp s) (nond s) x (crow s) (ccol s) (pcol s) (pita s) (pund s) (last s) (chan s) (pmid s).
+Definition set_pos s r c := mkScr (disp s) (nond s) (md s) r c (pcol s) (pita s) (pund s) (last s) (chan s) (pmid s).
+Definition set_pen s co i u := mkScr (disp s) (nond s) (md s) (crow s) (ccol s) co i u (last s) (chan s) (pmid s).
+Definition set_last s x := mkScr (disp s) (nond s) (md s) (crow s) (ccol s) (pcol s) (pita s) (pund s) x (chan s) (pmid s).
+Definition set_chan s x := mkScr (disp s) (nond s) (md s) (crow s) (ccol s) (pcol s) (pita s) (pund s) (last s) x (pmid s).
+Definition set_pmid s x := mkScr (disp s) (nond s) (md s) (crow s) (ccol s) (pcol s) (pita s) (pund s) (last s) (chan s) x.
 
 (* Recorded deviations of the reader from the standard (Findings/C08.v).  dev0 is the standard; each flag
    replaces one rule by what the reader does, so that a recorded finding excuses exactly its own effect:
-     v_pad_keeps   a control pair repeated after null padding / other-channel words is still taken for the
-                   second copy of a doubled code (the standard: only the immediately following pair)
      v_base15      in roll-up mode every PAC addresses row 15; PACs for rows 5-11 also lose indent and attributes
-     v_ital_white  the mid-row italics code makes the text white (the standard: the colour is kept), unless it
-                   directly follows another mid-row code
      v_pac_clears  in paint-on mode a PAC erases the row it addresses
-     v_der_ignored Delete to End of Row does nothing
      v_cr_erases   a carriage return outside roll-up mode erases the displayed memory (the standard: no effect) *)
-Record dev := mkDev { v_pad_keeps : bool ; v_base15 : bool ; v_ital_white : bool ; v_pac_clears : bool ; v_der_ignored : bool ;
-                      v_cr_erases : bool }.
-Definition dev0 := mkDev false false false false false false.
-Definition dev_all := mkDev true true true true true true.
+Record dev := mkDev { v_base15 : bool ; v_pac_clears : bool ; v_cr_erases : bool }.
+Definition dev0 := mkDev false false false.
+Definition dev_all := mkDev true true true.
 
 (* the memory characters are written to: the non-displayed one in pop-on mode, the displayed one otherwise *)
 Definition cur_mem (s : scr) : mem := match md s with PopOn => nond s | _ => disp s end.
@@ -124,8 +117,7 @@ Definition control (v : dev) (s : scr) (code : Z) : scr :=
     end
   else if code =? kBS then back s
   else if code =? kDER then
-    if v_der_ignored v then s
-    else set_cur_mem s (row_set (cur_mem s) (crow s) (blank_from (Z.to_nat (ccol s)) (row_get (cur_mem s) (crow s))))
+    set_cur_mem s (row_set (cur_mem s) (crow s) (blank_from (Z.to_nat (ccol s)) (row_get (cur_mem s) (crow s))))
   else if code =? kEDM then set_disp s mem0
   else if code =? kENM then set_nond s mem0
   else if code =? kEOC then set_md (set_nond (set_disp s (nond s)) (disp s)) PopOn
@@ -153,7 +145,7 @@ Definition pac (v : dev) (s : scr) (d : dec) : scr :=
    italics code keeps the colour; the underline flag is set by every code *)
 Definition midrow (v : dev) (s : scr) (d : dec) : scr :=
   let s1 := put s 32 in
-  if d_italic d then set_pen s1 (if v_ital_white v && negb (pmid s) then white else pcol s1) true (d_under d)
+  if d_italic d then set_pen s1 (pcol s1) true (d_under d)
   else set_pen s1 (d_color d) false (d_under d).
 
 (* a channel-1 control pair that is acted upon *)
@@ -165,8 +157,8 @@ Definition act (v : dev) (s : scr) (d : dec) : scr :=
     else if d_cls d =? cExtended then put (back s) (d_t1 d) else s in
   set_pmid s1 (d_cls d =? cMidRow).
 (* is this word the second copy of a doubled control pair (section 6.4)? *)
-Definition is_second_copy (v : dev) (s : scr) (w : Z) : bool :=
-  match (if v_pad_keeps v then lastk s else last s) with Some pv => pv =? value w | None => false end.
+Definition is_second_copy (s : scr) (w : Z) : bool :=
+  match last s with Some pv => pv =? value w | None => false end.
 
 Definition feed (v : dev) (s : scr) (w : Z) : scr :=
   let d := decode w in
@@ -175,14 +167,14 @@ Definition feed (v : dev) (s : scr) (w : Z) : scr :=
   else if d_cls d =? cChars then
     let s := set_last s None in
     if chan s =? 1 then
-      let s1 := put (set_pmid (set_lastk s None) false) (d_t1 d) in if d_t2 d =? -1 then s1 else put s1 (d_t2 d)
+      let s1 := put (set_pmid s false) (d_t1 d) in if d_t2 d =? -1 then s1 else put s1 (d_t2 d)
     else s
   else if negb (d_chan d =? 1) then
     (* a control pair of the other data channel (or of no channel): data channel 1 is no longer addressed *)
-    let s := set_last s (if is_second_copy dev0 s w then None else Some x) in
+    let s := set_last s (if is_second_copy s w then None else Some x) in
     if d_chan d =? 2 then set_chan s 2 else s
-  else if is_second_copy v s w then set_lastk (set_last s None) None
-  else act v (set_chan (set_lastk (set_last s (Some x)) (Some x)) 1) d.
+  else if is_second_copy s w then set_last s None
+  else act v (set_chan (set_last s (Some x)) 1) d.
 
 (* ------------------------------------------------------------------ what is seen: rows of styled characters *)
 Definition is_blank (c : cell) : bool := (ce_ch c =? -1) || (ce_ch c =? 32).
@@ -300,7 +292,7 @@ Fixpoint line_wins (v : dev) (ext : bool) (s : scr) (F : Z) (ws : list Z) (prev 
       let s' := feed v s w in
       let now := rows_of_mem (disp s') in
       let d := decode w in
-      let second := negb (d_cls d =? cPad) && negb (d_cls d =? cChars) && (d_chan d =? 1) && is_second_copy v s w in
+      let second := negb (d_cls d =? cPad) && negb (d_cls d =? cChars) && (d_chan d =? 1) && is_second_copy s w in
       let dups' := if second then dups + 1 else dups in
       if vrows_eqb prev now then line_wins v ext s' (F + 1) ws' prev dups' acc
       else line_wins v ext s' (F + 1) ws' now dups' (mkWin (if ext then F - dups else F) (F + 2) [now] :: acc)
@@ -374,19 +366,15 @@ Definition S_line (ls : list sline) (df : bool) (d : doc) : option Z := oracle d
 (* Executable predicates on the stream saying where a recorded deviation can show.  They are evaluated on the
    run of the decoder with all deviations admitted (the run the reader follows). *)
 Definition tDUP := 1.        (* a second copy of a doubled pair precedes a display-changing word of its line *)
-Definition tPADDUP := 2.     (* a pair repeated after nulls / other-channel words is dropped *)
 Definition tLATE := 4.       (* roll-up / paint-on: characters, mid-row code or backspace changing the display without directly
                                 following the CR (roll-up) / PAC (paint-on) that opened their paragraph *)
 Definition tBASE := 8.       (* roll-up PAC for a row other than 15 *)
-Definition tITAL := 16.      (* mid-row italics while the pen colour is not white *)
 Definition tCLEAR := 32.     (* paint-on PAC for a row that shows something *)
-Definition tDER := 64.       (* DER with something to delete *)
-Definition tSPACE := 128.    (* paint-on: first pair of characters after a PAC / mid-row code ends in a space, pen not default *)
 Definition tNEGCUR := 512.   (* pop-on / paint-on PAC for a row that already holds text, without indent (colour / italics PAC) or
                                 to the left of that text *)
-Definition tCLAMP := 1024.   (* pop-on / paint-on PAC more than one column to the right of what the addressed row already holds *)
 Definition tROW0 := 2048.    (* roll-up characters after EDM with no PAC / RUx in between *)
-Definition tOVER := 4096.    (* a character is stored over a cell that already shows one *)
+Definition tOVER := 4096.    (* a character is stored over a cell that already shows one, or a pop-on / paint-on PAC puts the cursor
+                                on or directly behind the text of its row *)
 Definition tCR := 8192.      (* carriage return outside roll-up mode while something is displayed *)
 Definition row_blank (m : mem) (r : Z) : bool := forallb is_blank (row_get m r).
 Definition bor (a b : Z) : Z := Z.lor a b.
@@ -398,25 +386,18 @@ Record tstate := mkTst { g_gap : Z ; g_fresh : bool ; g_noact : bool }.
 (* one word: flags raised by it and the new bookkeeping *)
 Definition word_triggers (s : scr) (w : Z) (g : tstate) : Z * tstate :=
   let d := decode w in
-  let v := dev_all in
   let gap := g_gap g in let fresh := g_fresh g in let noact := g_noact g in
   let direct := match md s with PopOn => false | _ => true end in
   if d_cls d =? cPad then (0, mkTst (gap + 1) fresh noact)
   else if d_cls d =? cChars then
     if chan s =? 1 then
-      let pen_default := (pcol s =? white) && negb (pita s) && negb (pund s) in
-      let sp := match md s with
-                | PaintOn => if fresh && negb pen_default && negb (d_t1 d =? 32) && (d_t2 d =? 32) then tSPACE else 0
-                | _ => 0
-                end in
       let r0 := match md s with RollUp _ => if noact then tROW0 else 0 | _ => 0 end in
       let cell_at c := nth (Z.to_nat c) (row_get (cur_mem s) (crow s)) blank in
       let ov := if negb (is_blank (cell_at (ccol s))) || (negb (d_t2 d =? -1) && negb (is_blank (cell_at (ccol s + 1)))) then tOVER else 0 in
-      (bor (bor sp r0) ov, mkTst (gap + 1) false (if direct then false else noact))
+      (bor r0 ov, mkTst (gap + 1) false (if direct then false else noact))
     else (0, mkTst (gap + 1) fresh noact)
   else if negb (d_chan d =? 1) then (0, mkTst (gap + 1) fresh noact)
-  else if is_second_copy v s w then
-    ((if is_second_copy dev0 s w then 0 else tPADDUP), g)
+  else if is_second_copy s w then (0, g)
   else
     let c := d_cls d in
     let code := d_code d in
@@ -428,17 +409,20 @@ Definition word_triggers (s : scr) (w : Z) (g : tstate) : Z * tstate :=
       let pos := match md s with
                  | RollUp _ => 0
                  | _ => if forallb is_blank row then 0
-                        else bor (if (d_indent d =? -1) || (col <? first_col row 0) then tNEGCUR else 0) (if last_col row 0 (-1) + 1 <? col then tCLAMP else 0)
+                        else bor (if (d_indent d =? -1) || (col <? first_col row 0) then tNEGCUR else 0)
+                                 (* the cursor lands on the text of the row or directly behind it: what is written next joins the
+                                    text element that is there and shares its attributes *)
+                                 (if col <=? last_col row 0 (-1) + 1 then tOVER else 0)
                  end in
       (bor (bor base clr) pos, mkTst (match md s with PaintOn => 0 | _ => gap + 1 end) true (if direct then false else noact))
     else if c =? cMidRow then
-      ((if d_italic d && negb (pcol s =? white) && negb (pmid s) then tITAL else 0), mkTst (gap + 1) true noact)
+      (0, mkTst (gap + 1) true noact)
     else if c =? cControl then
       if code =? kCR then
         ((match md s with RollUp _ => 0 | _ => if forallb (fun r => forallb is_blank r) (disp s) then 0 else tCR end),
          mkTst (match md s with RollUp _ => 0 | _ => gap + 1 end) fresh (match md s with RollUp _ => noact | _ => true end))
       else if code =? kDER then
-        ((if forallb is_blank (skipn (Z.to_nat (ccol s)) (row_get (cur_mem s) (crow s))) then 0 else tDER), mkTst (gap + 1) fresh noact)
+        (0, mkTst (gap + 1) fresh noact)
       else if code =? kEDM then (0, mkTst (gap + 1) fresh true)
       else if (code =? kEOC) || ((kRU2 <=? code) && (code <=? kRU4)) then (0, mkTst (gap + 1) fresh false)
       else (0, mkTst (gap + 1) fresh noact)
@@ -454,7 +438,7 @@ Fixpoint line_triggers (s : scr) (ws : list Z) (g : tstate) (dups : Z) (prev : v
   | w :: ws' =>
       let '(fl, g') := word_triggers s w g in
       let d := decode w in
-      let second := negb (d_cls d =? cPad) && negb (d_cls d =? cChars) && (d_chan d =? 1) && is_second_copy dev_all s w in
+      let second := negb (d_cls d =? cPad) && negb (d_cls d =? cChars) && (d_chan d =? 1) && is_second_copy s w in
       let s' := feed dev_all s w in
       let now := rows_of_mem (disp s') in
       let changed := negb (vrows_eqb prev now) in
